@@ -19,9 +19,9 @@ EXTENDS Integers, Sequences, FiniteSets, TLC, SchData
 
 CONSTANTS Names      \* the schemes to explore (subset of SchNames)
 
-VARIABLES sch, node, reg, npmin, npmax, steps
+VARIABLES sch, node, reg, npmin, npmax, steps, evis, ncalls
 
-vars == <<sch, node, reg, npmin, npmax, steps>>
+vars == <<sch, node, reg, npmin, npmax, steps, evis, ncalls>>
 
 Less(x, y)  == x[1] < y[1] \/ (x[1] = y[1] /\ x[2] < y[2])       \* on <<a,b>> pairs
 Leq(x, y)   == x = y \/ Less(x, y)
@@ -41,6 +41,15 @@ NPart(p) ==
     [] p = "PbAtShell" -> <<1, 7>>
     [] OTHER -> <<0, 0>>
 
+\* visible energy (eV) of the calls of an edge whose energy is fixed, and number of calls
+RECURSIVE SumEv(_, _)
+SumEv(items, i) ==
+  IF i > Len(items) THEN 0
+  ELSE (IF items[i].k = "call" /\ items[i].ev > 0 THEN items[i].ev ELSE 0) + SumEv(items, i + 1)
+RECURSIVE CountCalls(_, _)
+CountCalls(items, i) ==
+  IF i > Len(items) THEN 0 ELSE (IF items[i].k = "call" THEN 1 ELSE 0) + CountCalls(items, i + 1)
+
 RECURSIVE SumItems(_, _, _)
 SumItems(items, i, which) ==
   IF i > Len(items) THEN 0
@@ -52,7 +61,7 @@ Init ==
   /\ sch \in Names
   /\ node = 0
   /\ reg = <<>>
-  /\ npmin = 0 /\ npmax = 0 /\ steps = 0
+  /\ npmin = 0 /\ npmax = 0 /\ steps = 0 /\ evis = 0 /\ ncalls = 0
 
 \* an edge may be taken when its guard lies inside what is known about the draw it tests
 Take(i) ==
@@ -66,6 +75,8 @@ Take(i) ==
   /\ npmin' = npmin + SumItems(e.items, 1, 1)
   /\ npmax' = npmax + SumItems(e.items, 1, 2)
   /\ steps' = steps + 1
+  /\ evis' = evis + SumEv(e.items, 1)
+  /\ ncalls' = ncalls + CountCalls(e.items, 1)
   /\ UNCHANGED sch
 
 Next == \E i \in 1..Len(EdgesOf(sch)) : Take(i)
@@ -98,6 +109,13 @@ Acyclic == steps <= 60
 
 \* event capacity of the reference (npfull <= 100)
 Capacity == npmax <= 100
+
+\* C03 on the model: a de-excitation cascade releases the energy of the level it starts from (tabulated level energy vs sum
+\* of the transition energies: 3 keV + 1 keV per transition of rounding)
+CascadeClosure ==
+  (node = -1 /\ sch \in LowNames) =>
+     /\ evis >= LowLevelKeV[sch] * 1000 - 3000 - 1000 * ncalls
+     /\ evis <= LowLevelKeV[sch] * 1000 + 3000 + 1000 * ncalls
 
 \* a decay that has returned emitted at least one particle; the daughter-level (*low) routines are exempt: a transition to
 \* the ground state has no de-excitation (the primary leptons come from the double-beta sampler)
